@@ -62,7 +62,8 @@ PROPS["C07"] = dict(
          "channel capacity 0/1/8, all drawn from the seed. Oracles: porcupine linearizability of the recorded history (events stamped with the scheduler's "
          "global event sequence; AddTriples batch atomic, RemoveTriples expanded to single-triple removals sharing the call interval), no panic, no deadlock "
          "(no runnable task while a client is unfinished), step cap, channel closed exactly once also on error, shared options unmodified between every two "
-         "scheduler steps, no goroutine left. Non-trivial: at least one scheduling decision with >= 2 runnable tasks, >= 2 clients on one graph, >= 1 write; "
+         "scheduler steps, no goroutine left; 8% of the lookups are called with a context that is already done (refusing is fine, not closing the channel is not); after all clients returned a quiescent "
+         "audit compares every lookup for every universe triple and Exist with the full listing of each graph, and the final listing joins the history. Non-trivial: at least one scheduling decision with >= 2 runnable tasks, >= 2 clients on one graph, >= 1 write; "
          "distinct = distinct (recorded history, pick sequence) pairs",
     components_real=["storage/memory (real code, instrumented scratch copy: sim.Yield before every statement, sim.RWMutex)", "triple, node, predicate, literal (real code)"],
     components_stub=["clients and channel drainers (harness tasks)", "scheduler: seeded cooperative baton scheduler inside a testing/synctest bubble (x/sim)"],
@@ -128,7 +129,7 @@ PROPS["C08"] = dict(
          "exported grammar.BQL() table with sampled token texts, (c) random byte strings - half of them damaged the way an aborted or mangled request is "
          "(truncation after a token, token deletion / duplication / swap / replacement, delimiter injected inside a token, token cut, early error followed by a "
          "long tail, trailing tokens after the final ';'); executed through server.BQL as the client of a simulated run over empty and populated stores, plain or "
-         "memoized, with drawn chanSize / bulkSize / processor count / pacing / emission order / context-aware or context-ignoring driver; in 15% of the runs the caller's context is cancelled during a "
+         "memoized, with drawn chanSize / bulkSize / processor count / pacing / emission order / context-aware or context-ignoring driver / collected-and-redelivered or direct (the real driver streams into the engine's own channel) lookups; in 15% of the runs the caller's context is cancelled during a "
          "drawn driver call. Oracle: exactly one of (table, error); no panic in the caller or in "
          "any engine goroutine; the call returns (no deadlock / step cap); no goroutine of the call is left (bubble stack dump, lexer included). "
          "Every execution counts as non-trivial (a table or an intended rejection); distinct = distinct (text, data)",
